@@ -46,6 +46,8 @@ type c12Case struct {
 	Op    string `json:"op,omitempty"`
 	// bomb
 	Bomb string `json:"bomb,omitempty"`
+	// client negotiation steps
+	Step *c12StepPlan `json:"step,omitempty"`
 }
 
 func c12Clip(s string, n int) string {
@@ -340,6 +342,8 @@ func TestVerifC12(t *testing.T) {
 			c12ClientReplay(rec, &d)
 		case "bomb":
 			c12Bomb(rec, d.Bomb)
+		case "client-steps":
+			c12StepReplay(rec, &d)
 		}
 		return
 	}
@@ -356,6 +360,12 @@ func TestVerifC12(t *testing.T) {
 	for item := 0; item < c12ClientItems(rec.Thorough()); item++ {
 		if rec.Mine(n) {
 			c12ClientItem(rec, rec.Seed(), rec.Thorough(), item)
+		}
+		n++
+	}
+	for item := 0; item < c12StepItems(rec.Thorough()); item++ {
+		if rec.Mine(n) {
+			c12StepItem(rec, rec.Thorough(), item)
 		}
 		n++
 	}
